@@ -10,7 +10,7 @@ from .core import cstr, cbool, clist
 IMPORTS = ("From Coq Require Import List NArith ZArith QArith Qcanon Bool Arith.\nImport ListNotations.\n"
            "Require Import Mat ShowM.\nOpen Scope N_scope.")
 NUM = ["a", "b", "c"]
-CAT = {"A": ["x", "y", "z"], "B": ["u", "v"], "G": ["p", "q", "r", "s"]}
+CAT = {"A": ["x", "y", "z"], "B": ["u", "v"], "G": ["p", "q", "_r", "s"]}      # a level name with a leading underscore included (two underscores mark metadata keys in the code)
 VALS = [-2, -1, 0, 0.5, 1, 2, 3, 4, 0.25, -0.5]
 
 
@@ -112,7 +112,10 @@ def gen_terms(rng, names=None, max_terms=5, lit_p=0.25, missing_p=0.03):
         k = rng.choice([0, 1, 1, 2, 2, 3])
         fs = [(x, "lookup") for x in rng.sample(names, min(k, len(names)))]
         if rng.random() < lit_p or k == 0:
-            fs.insert(rng.randrange(len(fs) + 1), (rng.choice(["1", "2", "0.5", "3", "1"]), "literal"))
+            lit = rng.choice(["1", "2", "0.5", "3", "1"])
+            fs.insert(rng.randrange(len(fs) + 1), (lit, "literal"))
+            if k >= 1 and rng.random() < 0.3:            # a second, different literal factor in the same term (2:3:a)
+                fs.insert(rng.randrange(len(fs) + 1), (rng.choice([x for x in ["2", "0.5", "3", "4"] if x != lit]), "literal"))
         terms.append(fs)
     return terms
 
